@@ -4,6 +4,7 @@ package main
 // VIOLATION / KNOWN-FINDING lines, evidence.
 
 import (
+	"regexp"
 	"encoding/json"
 	"fmt"
 	"os"
@@ -198,7 +199,7 @@ func runCheck(o checkOpts) int {
 	if base := loadBaseline(o.verifDir, o.id); base != nil {
 		have := map[string]bool{}
 		for _, ob := range obs {
-			have[ob.Name] = true
+			have[obligationStem(ob.Name)] = true
 		}
 		for _, n := range base {
 			if !have[n] {
@@ -441,6 +442,19 @@ var unstableKinds = map[string]bool{"index": true, "slice": true, "overflow": tr
 // stableName: obligations whose names do not depend on counting expression sites.
 func stableName(ob *Obligation) bool { return !unstableKinds[ob.Kind] }
 
+var ordinalRe = regexp.MustCompile(`(@ret|/path|@edge|@call)\d+`)
+var trailingNumRe = regexp.MustCompile(`\d+$`)
+
+// obligationStem removes the ordinals that depend on the shape of the code (which return, which merged
+// path, which back edge, which call site, the running number of unlabelled safety obligations): the
+// baseline must not raise an alarm when a harmless edit renumbers them.
+func obligationStem(name string) string {
+	if strings.HasPrefix(name, "lemma.") || strings.HasPrefix(name, "bounded.") || strings.HasPrefix(name, "tablelemma.") || strings.HasPrefix(name, "smtlemma.") {
+		return name
+	}
+	return trailingNumRe.ReplaceAllString(ordinalRe.ReplaceAllString(name, ""), "")
+}
+
 func writeBaseline() int {
 	p, err := loadProg("/repo", "/verif/spec")
 	if err != nil {
@@ -483,7 +497,7 @@ func writeBaseline() int {
 			}
 			for _, ob := range rep.Obs {
 				if stableName(ob) && ob.FindingID == "" {
-					names = append(names, ob.Name)
+					names = append(names, obligationStem(ob.Name))
 				}
 			}
 		}
@@ -494,7 +508,13 @@ func writeBaseline() int {
 			}
 		}
 		sort.Strings(names)
-		out[id] = names
+		var uniq []string
+		for i, n := range names {
+			if i == 0 || n != names[i-1] {
+				uniq = append(uniq, n)
+			}
+		}
+		out[id] = uniq
 	}
 	os.MkdirAll("/verif/baseline", 0o755)
 	data, _ := json.MarshalIndent(out, "", " ")
